@@ -929,6 +929,9 @@ pub trait Allocator: sealed::Sealed {
 
   /// Forcelly increases the discarded bytes.
   ///
+  /// # Panic
+  /// - If the allocator is read-only, then this method will panic.
+  ///
   /// ## Example
   ///
   /// ```rust
@@ -1143,6 +1146,9 @@ pub trait Allocator: sealed::Sealed {
   fn minimum_segment_size(&self) -> u32;
 
   /// Sets the minimum segment size of the allocator.
+  ///
+  /// # Panic
+  /// - If the allocator is read-only, then this method will panic.
   ///
   /// ## Example
   ///
